@@ -247,6 +247,11 @@ class RootSequence:
     """
     n_sc_PRB = 12  # Number of subcarriers in a PRB in LTE
 
+    # Let numpy arrays defer to `__radd__` / `__rmul__`: without this
+    # `ndarray + root_seq` treats the object as a scalar and returns an object
+    # array instead of `ndarray + root_seq.seq_array()`
+    __array_ufunc__ = None
+
     def __init__(self,
                  root_index: int,
                  size: Optional[int] = None,
